@@ -1,5 +1,6 @@
 import PytezosModel.Michelson.Interp.Syntax
 import PytezosModel.Michelson.Collections
+import PytezosModel.Michelson.Arith
 import PytezosModel.Generated.C01
 /-! `Impl.exec` — mirror of the `execute` methods of src/pytezos/michelson/instructions/*.py over the
 `MichelsonStack` of src/pytezos/michelson/stack.py (`items` + `protected` prefix).
@@ -517,6 +518,57 @@ def execSlice (o l v : Val) : Res Val :=
     | _, _ => .stuck
   else .stuck
 
+/-- BYTES after `pop1`: `a.assert_type_in(NatType, IntType)` (`issubclass`: every integer class passes),
+`signed = not isinstance(a, NatType)` (`mutez` derives from `nat`), `length = (8 + (v + (v < 0)).bit_length()) // 8 if v
+else 0` / `(7 + v.bit_length()) // 8`, `v.to_bytes(length, 'big', signed=signed)` (CPython's `bit_length` / `to_bytes` are
+`PyNum`, Michelson/Arith.lean; an OverflowError — a negative `nat` — is an error) -/
+def execBytes (a : Val) : Res Val :=
+  match a with
+  | .num t x =>
+    let signed := !(t == .nat || t == .mutez)
+    let length := if signed then (if x ≠ 0 then _root_.Impl.Arith.signedLen x else 0) else _root_.Impl.Arith.unsignedLen x
+    match PyNum.toBytes x length signed with
+    | some bs => .ok (.bytes bs)
+    | none => .stuck
+  | _ => .stuck
+
+/-- NAT after `pop1`: `a.assert_type_in(BytesType)`, `NatType.from_value(int.from_bytes(bytes(a), 'big'))` -/
+def execNat (a : Val) : Res Val :=
+  match a with
+  | .bytes b => numFromValue .nat (PyNum.fromBytes b false)
+  | _ => .stuck
+
+/-- VOTING_POWER after `pop1`: `address.assert_type_equal(KeyHashType)`,
+`NatType.from_value(context.get_voting_power(str(address)))` -/
+def execVotingPower (env : Env) (a : Val) : Res Val :=
+  match a with
+  | .atom .keyHash s => numFromValue .nat (env.votingPower s)
+  | _ => .stuck
+
+/-- HASH_KEY after `pop1`: `a.assert_type_equal(KeyType)`,
+`KeyHashType.from_value(Key.from_encoded_key(str(a)).public_key_hash())` -/
+def execHashKey (env : Env) (a : Val) : Res Val :=
+  match a with
+  | .atom .key s => .ok (.atom .keyHash (env.hashes.hashKey s))
+  | _ => .stuck
+
+/-- the instructions of extension 2 of the shape `a = stack.pop1(); a.assert_type_…(…); res = …; stack.push(res)`:
+`res` for the popped `a` -/
+def execUn (env : Env) (i : Instr) (a : Val) : Res Val :=
+  match i with
+  | .NAT => execNat a
+  | .BYTES => execBytes a
+  | .VOTING_POWER => execVotingPower env a
+  | .HASH_KEY => execHashKey env a
+  | _ => .stuck
+
+/-- the instructions of extension 2 -/
+def stepExt (env : Env) (i : Instr) (s : Stack) : Res Stack :=
+  match i with
+  -- NEVER: `never = stack.pop1(); never.assert_type_equal(NeverType)`; nothing is pushed
+  | .NEVER => do let (a, s) ← s.pop1; if typeOf a = .never then pure s else .stuck
+  | i => do let (a, s) ← s.pop1; let r ← execUn env i a; pure (s.push r)
+
 /-- further instructions without sub-programs (kept apart from `step` so that either pattern match stays small) -/
 def stepMore (env : Env) (i : Instr) (s : Stack) : Res Stack :=
   match i with
@@ -529,7 +581,7 @@ def stepMore (env : Env) (i : Instr) (s : Stack) : Res Stack :=
   | .SHA3 => do let (a, s) ← s.pop1; let r ← execHash env.hashes.sha3 a; pure (s.push r)
   | .CAST _ => do let (a, s) ← s.pop1; pure (s.push a)      -- the cast itself is commented out in the source
   | .RENAME => pure s
-  | _ => .stuck
+  | i => stepExt env i s
 
 /-- instructions that touch only the top of the stack -/
 def step (env : Env) (i : Instr) (s : Stack) : Res Stack :=
@@ -677,6 +729,9 @@ def step (env : Env) (i : Instr) (s : Stack) : Res Stack :=
   | .INT => do
       let (a, s) ← s.pop1
       match a with
+      | .bytes b => do      -- `isinstance(a, BytesType)`: `IntType.from_value(int.from_bytes(bytes(a), 'big', signed=True))`
+          let r ← numFromValue .int (PyNum.fromBytes b true)
+          pure (s.push r)
       | .num .nat x => pure (s.push (.num .int x))
       | _ => .stuck
   | .COMPARE => do
